@@ -12,7 +12,12 @@ impl PartialEqSpecImpl for Value {
     open spec fn obeys_eq_spec() -> bool { true }
     open spec fn eq_spec(&self, other: &Value) -> bool { veq(vview(*self), vview(*other)) }
 }
+impl PartialOrdSpecImpl for Value {
+    open spec fn obeys_partial_cmp_spec() -> bool { true }
+    open spec fn partial_cmp_spec(&self, other: &Value) -> Option<Ordering> { vcmp(vview(*self), vview(*other)) }
+}
 //@assume objects.eq
+//@assume objects.partial_cmp
 //@assume objects.map_get
 #[verifier::external_body]
 pub fn __str_contains(hay: &str, needle: &str) -> (r: bool) ensures r == str_contains(hay@, needle@) { hay.contains(needle) }
@@ -46,4 +51,11 @@ pub mod duration {
 }
 //@assume lib.function_error
 //@verify functions._duration
+// ---- min() / max() ----
+//@item interpreter/src/magic.rs :: struct Arguments
+//@include prelude/minmax_spec.rs
+pub assume_specification<'a, T: Clone, E>[Result::<&'a T, E>::cloned](r: Result<&'a T, E>) -> (res: Result<T, E>)
+    ensures match r { Ok(v) => res is Ok && res->Ok_0 == *v, Err(e) => res == Err::<T, E>(e) };
+//@verify functions.max
+//@verify functions.min
 //@include prelude/tail_std.rs
